@@ -6,6 +6,8 @@ package bind
 import (
 	"encoding/json"
 	"fmt"
+	"math"
+	"os"
 
 	"github.com/sahandsafizadeh/qeep/component/layers"
 	"github.com/sahandsafizadeh/qeep/component/layers/activations"
@@ -29,6 +31,16 @@ type Par struct {
 
 // Registry holds the component objects (layers, losses, optimizers) a case re-uses across instructions.
 type Registry struct{ objs map[int]any }
+
+// Scope is the property whose check is running (QV_PROP; set for the worker processes by the farm). Differential
+// runs that realise ANOTHER property's scenario are only made when that property is the one being checked: the run
+// with all inputs untracked belongs to C08 ("tracking never changes forward values"), the run with the caller's slices
+// overwritten to C10. TwinOnly (QV_TWINONLY=1): a replay of some other property's cases made only for those
+// differential runs - comparisons with the specified values are not this check's business and are skipped.
+var (
+	Scope    = os.Getenv("QV_PROP")
+	TwinOnly = os.Getenv("QV_TWINONLY") == "1"
+)
 
 func NewRegistry() *Registry { return &Registry{objs: map[int]any{}} }
 
@@ -529,4 +541,68 @@ type Ctx struct {
 func Context(t Tensor) Ctx {
 	tr, sp, hg, e := tensor.VerifState(t)
 	return Ctx{Tracked: tr, Spent: sp, HasGrad: hg, Edges: e}
+}
+
+// CrossRead reads a tensor through independent routes and requires them to agree with the elements
+// read through At: the whole-tensor reductions (which walk the stored data rather than the shape),
+// Reshape to a flat vector, Slice(nil), and Equals against a freshly built tensor of the same values.
+func CrossRead(t tensor.Tensor, dims []int, flat []float64) string {
+	n := len(flat)
+	finite := true
+	sum, mx, mn, mag := 0.0, math.Inf(-1), math.Inf(1), 0.0
+	for _, v := range flat {
+		if math.IsNaN(v) || math.IsInf(v, 0) {
+			finite = false
+		}
+		sum += v
+		mag += math.Abs(v)
+		mx = math.Max(mx, v)
+		mn = math.Min(mn, v)
+	}
+	if finite && !math.IsInf(mag, 0) {
+		if got := t.Sum(); math.Abs(got-sum) > 1e-9*mag+1e-300 {
+			return fmt.Sprintf("Sum() = %v but the elements read through At add up to %v (hidden elements?)", got, sum)
+		}
+		if got := t.Max(); got != mx {
+			return fmt.Sprintf("Max() = %v but the largest element read through At is %v", got, mx)
+		}
+		if got := t.Min(); got != mn {
+			return fmt.Sprintf("Min() = %v but the smallest element read through At is %v", got, mn)
+		}
+	}
+	r, err := t.Reshape([]int{n})
+	if err != nil {
+		return fmt.Sprintf("Reshape([%d]) of a result failed: %v", n, err)
+	}
+	for i := 0; i < n; i++ {
+		v, err := r.At(i)
+		if err != nil {
+			return fmt.Sprintf("At(%d) of the flattened result failed: %v", i, err)
+		}
+		if math.Float64bits(v) != math.Float64bits(flat[i]) && !(math.IsNaN(v) && math.IsNaN(flat[i])) {
+			return fmt.Sprintf("element %d read through Reshape is %v, through At %v", i, v, flat[i])
+		}
+	}
+	cp, err := t.Slice(nil)
+	if err != nil {
+		return fmt.Sprintf("Slice(nil) of a result failed: %v", err)
+	}
+	_, cflat, err := Read(cp)
+	if err != nil {
+		return err.Error()
+	}
+	for i := range cflat {
+		if math.Float64bits(cflat[i]) != math.Float64bits(flat[i]) && !(math.IsNaN(cflat[i]) && math.IsNaN(flat[i])) {
+			return fmt.Sprintf("element %d of Slice(nil) is %v, of the tensor %v", i, cflat[i], flat[i])
+		}
+	}
+	if finite {
+		fresh, err := New(dims, flat, false)
+		if err == nil {
+			if eq, err := t.Equals(fresh); err != nil || !eq {
+				return fmt.Sprintf("Equals against a fresh tensor holding the same elements: %v %v", eq, err)
+			}
+		}
+	}
+	return ""
 }
